@@ -8,6 +8,24 @@ CHECKS = {
    note="Trusted: TLC, the 100-line replayers, the friend-template access to the row-level interface. Coefficients bounded by 10^5; three expression slots; row sizes <= 143.",
    ref="§5 C16"),
 }
+POLY_NOTE = ("Trusted: TLC; the brute-force operators of specs/lib (validated against each other by PolyWorld.tla); the logging harness "
+             "harness/poly.cc (observations from copies). Bounds: space dimension <= 3, coefficients of generated data in -2..2, histories <= 14 calls, "
+             "3 slots; events whose data exceed the 32-bit determinant guard are counted undecided, never reported.")
+for _id, _tech, _text in (
+  ("C01", "trace validation of recorded query answers against TLA+ definitions (PolyTrace.tla) over TLC-generated histories; TLC model check of the oracle's laws (PolyWorld.tla)",
+   "Every recorded call of TLC-generated histories over a pool of C/NNC polyhedra is one action of the trace specification: after each call both reported descriptions of every slot must denote the same set (brute-force vertex enumeration in TLA+, nothing shared with the library's conversion), every observer must answer what that set dictates (emptiness, universe, boundedness, closedness, containment, disjointness, equality, relations with constraints/generators/congruences, dimension, bounds, optima with witness) and must leave it unchanged; rebuild twins drive equal sets through different lazy states. The oracle's own laws are model-checked exhaustively by TLC on a small world."),
+  ("C02", "trace validation of each operation's result against its definitional description (union of systems, Fourier-Motzkin on the transfer relation, generator images) in PolyTrace.tla",
+   "Each set-transforming call recorded from the real library must produce a value that is same-set with the definitional description computed in TLA+ from the verified pre-state: intersections/refinements as unions of constraint systems, hulls/time-elapse as unions of generator systems, all affine (pre)images through the documented relation and one Fourier-Motzkin step, difference as the hull of the pieces, 'if exact' Booleans through exact covering, dimension operators by index surgery."),
+  ("C13", "trace validation of the Pool machine's frame condition over histories with copies, assignments, swaps and aliased arguments",
+   "After every recorded call every slot that is not the receiver must denote the same set as before (const arguments included), copy/assign/swap/rebuild must produce the source value, and calls with the same object as receiver and argument are validated against the same definitions as calls on distinct equal objects."),
+  ("C15", "trace validation of the DumpLoad action: load succeeds, re-dump identical, OK(), same value, twin driven on",
+   "In TLC-generated histories every object state reached (all status-flag combinations the driver reaches) is dumped and loaded into another slot; the specification requires success, text-identical re-dump, class invariant and value equality, and the loaded twin keeps being validated by all later actions."),
+):
+    CHECKS[_id] = dict(level="model_checking", engine="tlc-trace", technique=_tech, text=_text, note=POLY_NOTE, ref="§5 " + _id)
+CHECKS["C14"] = dict(level="fault_enumeration", engine="tlc-trace",
+   technique="trace validation of rejected-call actions (precondition computed in TLA+ from the pre-state) + allocation-failure enumeration",
+   text="(a) 35% of the calls of TLC-generated histories are deliberately ill-formed; the trace specification decides from the verified pre-state whether a call must be rejected and then requires std::invalid_argument and every slot unchanged, and forbids exceptions on well-formed calls. (b) see DESIGN.md C14: every allocation index of scripted scenarios is made to fail.",
+   note=POLY_NOTE, ref="§5 C14")
 NOT_YET = {}
 
 
